@@ -88,7 +88,9 @@ class Multiplication:
     offset = 0
     for i in range(first,factor+first-1):
       name = "{}*{}".format(segment_name, i+offset)
-      while name in self.names:
+      # (a name is also taken if it is only mentioned by other lines,
+      #  i.e. it belongs to a line which is not yet defined)
+      while name in self.names or self.line(name) is not None:
         offset+=1
         name = "{}*{}".format(segment_name, i+offset)
       retval.append(name)
